@@ -79,8 +79,10 @@ Print Assumptions C09_gc_reopen.
    exactly [Gone]: the least set containing x, closed under "untagged manifest of the store
    whose subject (a manifest) was removed and all of whose holders were removed" and
    "untagged node of the store that had predecessors, all of which were removed" -- from the
-   storage, from the graph and from the reference index (so the tags of x go, and the digest
-   references of what is removed); every tag of another node stays.  A holder of r is a
+   storage, from the graph and from the reference index: no reference to a removed node
+   remains, every reference to a surviving node stays, the tags afterwards are exactly the
+   tags of the nodes other than x, and the only new references are by-digest references of
+   manifests (delete() lists a manifest that lost its last predecessor by its digest).  A holder of r is a
    predecessor that has r among its entries (manifests, layers, config, blobs): a referrer
    does not keep its subject alive through the subject field, every other link does. *)
 Theorem C09_delete_exact :
@@ -91,8 +93,10 @@ Theorem C09_delete_exact :
     delete succ subject manifest cfg_fixed ord st x = (st', Ok) /\
     (forall y, In y (blobs st') <-> In y (blobs st) /\ ~ Gone succ subject manifest st x y) /\
     (forall y, In y (gnodes st') <-> In y (gnodes st) /\ ~ Gone succ subject manifest st x y) /\
-    (forall r n, In (r, n) (idx st') <-> In (r, n) (idx st) /\ ~ Gone succ subject manifest st x n) /\
-    (forall t n, In (RTag t, n) (idx st) -> n <> x -> In (RTag t, n) (idx st')) /\
+    (forall r n, In (r, n) (idx st') ->
+       ~ Gone succ subject manifest st x n /\ (In (r, n) (idx st) \/ (r = RDig n /\ manifest n = true))) /\
+    (forall r n, In (r, n) (idx st) -> ~ Gone succ subject manifest st x n -> In (r, n) (idx st')) /\
+    (forall t n, In (RTag t, n) (idx st') <-> In (RTag t, n) (idx st) /\ n <> x) /\
     (forall r, ~ In (r, x) (idx st')) /\
     strays st' = strays st /\ autogc st' = autogc st.
 Proof. exact delete_exact_final. Qed.
@@ -132,14 +136,16 @@ Theorem C09_delete_surviving_pred_refuted :
 Proof. exact delete_referrer_still_linked. Qed.
 Print Assumptions C09_delete_surviving_pred_refuted.
 
-(* AutoGC off: exactly the target (content, graph node, every reference to it) *)
+(* AutoGC off: exactly the target (content, graph node, every reference to it); [del_idx] =
+   the references not to x, plus a by-digest reference for every manifest that lost its last
+   predecessor and had none *)
 Theorem C09_delete_plain :
   forall succ subject manifest st x ord,
   reorders ord -> autogc st = false -> In x (blobs st) ->
   exists st',
     delete succ subject manifest cfg_fixed ord st x = (st', Ok) /\
     blobs st' = removeb x (blobs st) /\ gnodes st' = removeb x (gnodes st) /\
-    idx st' = filter (fun e => negb (Nat.eqb (snd e) x)) (idx st) /\
+    idx st' = del_idx succ manifest st x /\
     strays st' = strays st /\ autogc st' = autogc st.
 Proof. exact delete_plain_final. Qed.
 Print Assumptions C09_delete_plain.
@@ -152,7 +158,7 @@ Theorem C09_delete_absent :
   snd (delete succ subject manifest c ord st x) = ENotFound /\
   blobs (fst (delete succ subject manifest c ord st x)) = blobs st /\
   gnodes (fst (delete succ subject manifest c ord st x)) = removeb x (gnodes st) /\
-  idx (fst (delete succ subject manifest c ord st x)) = filter (fun e => negb (Nat.eqb (snd e) x)) (idx st).
+  idx (fst (delete succ subject manifest c ord st x)) = del_idx succ manifest st x.
 Proof. exact delete_absent_final. Qed.
 Print Assumptions C09_delete_absent.
 
